@@ -213,4 +213,18 @@ theorem ideal_eq_sdlapi_statement_false : ¬ ideal_eq_sdlapi_statement := by
   revert h2
   decide
 
+/-- The abstract iterator meets its own interface. -/
+def meetsIdeal (epochs : Nat → List Item) : Meets (idealIC epochs) epochs where
+  A x a := x = a
+  AT t a := t = a
+  AW w g := w = some g
+  WN _ := True
+  aw_wn := fun _ _ _ => trivial
+  make_none := by intro w g h; subst h; exact ⟨_, rfl, rfl⟩
+  make_some := by intro w t a _ h; subst h; exact ⟨t, by cases w <;> rfl, rfl⟩
+  next := by intro x a h _; subst h; exact ⟨rfl, rfl⟩
+  state := by intro x a h; exact h
+  fin := by intro x a h; subst h; rfl
+  world := by intro x a h _; subst h; rfl
+
 end TDV.E2E
